@@ -1904,6 +1904,7 @@ func transAll(v1, v2 *pkg) string {
 			sliceOut: []string{"total"}, inputs: map[string]string{"batch": "costs:list"}},
 		{file: "batcher.go", recv: "Batcher", name: "Stop", lean: "v1_Stop", view: "_st",
 			inputs: map[string]string{"r.stop != nil": "hasStop:bool"}, captureCalls: map[string]string{"close": "closeStop", "r.shutdown.Wait": "wait"}},
+		{file: "batcher.go", recv: "Batcher", name: "Flush", lean: "v1_Flush", view: "_fl", chanCap: map[string]string{"flush": "1"}},
 		{file: "batcher.go", recv: "Batcher", name: "Pause", lean: "v1_Pause", view: "_pz", chanCap: map[string]string{"pause": "1"}},
 		{file: "batcher.go", recv: "Batcher", name: "resume", lean: "v1_resume", view: "_ph"},
 		{file: "batcher.go", recv: "Batcher", name: "Start", lean: "v1_pauseArm", view: "_ph", sliceAt: "r.emit(PauseEvent", sliceN: 4, sliceOut: []string{"sleepCalled", "sleepArg"},
@@ -1948,6 +1949,7 @@ func transAll(v1, v2 *pkg) string {
 		{file: "batcher.go", recv: "batcher", name: "releaseBatchSlot", lean: "v2_releaseBatchSlot", view: "_slots", chanCap: map[string]string{"inflight": "maxConcurrentBatches"}},
 		{file: "batcher.go", recv: "batcher", name: "confirmInflightIsZero", lean: "v2_confirmInflightIsZero", view: "_slots", chanCap: map[string]string{"inflight": "maxConcurrentBatches"}},
 		{file: "batcher.go", recv: "batcher", name: "Inflight", lean: "v2_Inflight", view: "_slots", chanCap: map[string]string{"inflight": "maxConcurrentBatches"}},
+		{file: "batcher.go", recv: "batcher", name: "Flush", lean: "v2_Flush", view: "_fl", chanCap: map[string]string{"flush": "1"}},
 		{file: "batcher.go", recv: "batcher", name: "Pause", lean: "v2_Pause", view: "_pz", chanCap: map[string]string{"pause": "1"}},
 		{file: "batcher.go", recv: "batcher", name: "processBatch", lean: "v2_finishTail", view: "_fin", sliceAt: "var total int = 0", sliceN: 4,
 			sliceOut: []string{"total"}, inputs: map[string]string{"batch": "costs:list"}},
